@@ -6,7 +6,7 @@
    the implementation at the same budgets. *)
 From Coq Require Import ZArith List Bool Znumtheory.
 Require Import Model.Base Model.Field Model.Ir Model.Propagate Model.Justify.
-Require Import Spec.FieldSpec Spec.ValueSem Proofs.ValueProofs Proofs.CutProofs Proofs.CutInvariant.
+Require Import Spec.FieldSpec Spec.ValueSem Proofs.ValueProofs Proofs.CutProofs Proofs.CutInvariant Proofs.DegErase.
 Import ListNotations.
 Local Open Scope Z_scope.
 
@@ -57,6 +57,21 @@ Theorem C20_mirror_validated_at_every_budget : forall k p c bs env,
   vjust_cfg p (set_blocks c bs) = true.
 Proof. exact mirror_validated_at_every_budget. Qed.
 Print Assumptions C20_mirror_validated_at_every_budget.
+
+(* the same for the whole propagation: value passes under budget kv followed
+   by degree passes under budget kd - degree propagation never touches a value
+   claim (it commutes with erasing all degree knowledge, and the validator only
+   reads the erased graph) *)
+Theorem C20_propagate_validated_at_every_budget : forall kv kd p c c',
+  clean_cfg c = true -> ldefs_unique (all_stmts (c_blocks c)) = true ->
+  propagate kv kd p c = Ok c' -> vjust_cfg p c' = true.
+Proof. exact propagate_validated_at_every_budget. Qed.
+Print Assumptions C20_propagate_validated_at_every_budget.
+
+Theorem C20_degree_passes_keep_value_claims : forall k env bs,
+  map serase (all_stmts (fst (degrees_passes k env bs))) = map serase (all_stmts bs).
+Proof. exact degrees_passes_pres. Qed.
+Print Assumptions C20_degree_passes_keep_value_claims.
 
 (* one statement visit (the unit a cut inside a pass can separate) preserves the invariant *)
 Theorem C20_single_visit_preserves_invariant : forall p A s B env b s' env',
